@@ -19,8 +19,10 @@ VARIABLES seq, t, n, mut
 AtomStrs == << "a", "b1", "nullable", "ns.f", "1", "-2", "1.5", "'s'", "''", "(", ")", ",", "/", ":", "=", " ",
                " eq ", " and ", " add ", " in ", "not ", "-", "any", "all", "null", "true", "concat", "now",
                "length", "foo", "#", "'", "2020-01-01", "duration'P1D'", "geo.length", "x:" >>
-NAtoms == Len(AtomStrs)
-AtomCps == [i \in 1..NAtoms |-> StrCps(AtomStrs[i])]
+\* two non-ASCII atoms: a letter that \w matches (and that cannot start a token) and a space that \s matches
+UniAtoms == << <<233>>, <<160>> >>
+NAtoms == Len(AtomStrs) + Len(UniAtoms)
+AtomCps == [i \in 1..NAtoms |-> IF i <= Len(AtomStrs) THEN StrCps(AtomStrs[i]) ELSE UniAtoms[i - Len(AtomStrs)]]
 RECURSIVE Concat(_)
 Concat(ixs) == IF ixs = <<>> THEN <<>> ELSE AtomCps[ixs[1]] \o Concat(Tail(ixs))
 
